@@ -158,6 +158,15 @@ func sortedKeys(m map[string]bool) []string {
 // finish matches known findings, writes evidence and the replay file, prints
 // the verdict lines and returns the process exit code for this property.
 func (c *Check) finish(verifDir, tier string, seed int, start time.Time, known []KnownFinding, cmdline string) int {
+	if c.Assumptions == nil {
+		c.Assumptions = []string{}
+	}
+	if c.Trusted == nil {
+		c.Trusted = []string{}
+	}
+	if c.NotDecided == nil {
+		c.NotDecided = []string{}
+	}
 	failing := c.Failing()
 	var unlisted []Obligation
 	var knownHit []KnownFinding
